@@ -1,0 +1,36 @@
+//go:build verif
+
+// Export shim for the external verification harness (/verif, property C17 part B: storage-key
+// injectivity). Compiled only with the build tag `verif`. Thin wrappers that make the unexported
+// put/get storage helpers reachable as black-box key constructors; no contract logic lives here.
+
+package btc
+
+import (
+	"math/big"
+
+	"github.com/btcsuite/btcd/chaincfg/chainhash"
+	"github.com/btcsuite/btcd/wire"
+	"github.com/polynetwork/poly/native"
+)
+
+// VerifNewStoredHeader builds a StoredHeader (its totalWork field is unexported).
+func VerifNewStoredHeader(header wire.BlockHeader, height uint32, totalWork *big.Int) StoredHeader {
+	return StoredHeader{Header: header, Height: height, totalWork: totalWork}
+}
+
+func VerifPutGenesisBlockHeader(native *native.NativeService, chainID uint64, blockHeader StoredHeader) {
+	putGenesisBlockHeader(native, chainID, blockHeader)
+}
+
+func VerifPutBlockHash(native *native.NativeService, chainID uint64, height uint32, hash chainhash.Hash) {
+	putBlockHash(native, chainID, height, hash)
+}
+
+func VerifPutBlockHeader(native *native.NativeService, chainID uint64, sh StoredHeader) {
+	putBlockHeader(native, chainID, sh)
+}
+
+func VerifPutBestBlockHeader(native *native.NativeService, chainID uint64, bestHeader StoredHeader) {
+	putBestBlockHeader(native, chainID, bestHeader)
+}
